@@ -51,7 +51,7 @@ GENOME_B = (("1", 150, 130), ("2", 150, 130), ("3", 150, 130), ("X", 40, 40), ("
 COHORTS_B = {"FF": (0, 0), "MM": (1, 1), "FM": (0, 1), "FFM": (0, 0, 1), "FF-depth": (0, 0), "MM-depth": (1, 1), "MFM": (1, 0, 1)}
 
 GC_ALPHABET_Q = "AcGtNn"
-GC_ALPHABET_EXTRA = "AcGtNnCaR"
+GC_ALPHABET_EXTRA = "AcGtNnCaRy"
 FASTA_WIDTHS = (5, 8, 24, 60)
 FASTA_CONTENTS = (  # 24 bases each; two records per file (second = reversed, other naming style)
     "ACGTacgtNNnnGGCCaattACGT",
@@ -60,6 +60,7 @@ FASTA_CONTENTS = (  # 24 bases each; two records per file (second = reversed, ot
     "aAtTcCgGnNaAtTcCgGnNaAtT",
     "ATATATATATATATATATATATAT",
     "nnnnnnnnnnnnNNNNNNNNNNNN",
+    "ACGTRYacgtryNNSWGGCCkmaa",  # IUPAC codes other than N: ambiguous, counted nowhere
 )
 
 
@@ -94,7 +95,7 @@ def describe(tier):
             + ", ".join(COHORTS_B if t else [c for c in COHORTS_B if c != "MFM"])
             + " x antitarget {none, present} x reference sex x 8 correction subsets, noise sd 0.02",
             "flat": "naming x reference sex x chromosome sets {auto+X+Y, auto+X, auto, X+Y first} x antitarget {none, present, empty} x FASTA {no, yes}",
-            "gc_strings": ("length <= 7 over 'AcGtNn' and length <= 5 over 'AcGtNnCaR'" if t else "length <= 6 over 'AcGtNn'"),
+            "gc_strings": ("length <= 7 over 'AcGtNn' and length <= 5 over 'AcGtNnCaRy'" if t else "length <= 6 over 'AcGtNn' and length <= 4 over 'AcGtNnCaRy'"),
             "gc_fasta": "6 contents x 4 line widths x 2 records x every [s, e) with 0 <= s < e <= 24",
         },
         "alphabet": {
@@ -183,9 +184,9 @@ def cases(tier):
     # cheap, exhaustive sub-checks first
     for first in [""] + list(GC_ALPHABET_Q):
         yield {"check": "gc-strings", "alphabet": GC_ALPHABET_Q, "prefix": first, "maxlen": 7 if t else 6}
-    if t:
-        for first in [""] + list(GC_ALPHABET_EXTRA):
-            yield {"check": "gc-strings", "alphabet": GC_ALPHABET_EXTRA, "prefix": first, "maxlen": 5}
+    # with an IUPAC code other than N/n (R, and lower-case r): ambiguous, in neither numerator nor denominator
+    for first in [""] + list(GC_ALPHABET_EXTRA):
+        yield {"check": "gc-strings", "alphabet": GC_ALPHABET_EXTRA, "prefix": first, "maxlen": 5 if t else 4}
     for ci in range(len(FASTA_CONTENTS)):
         for w in FASTA_WIDTHS:
             yield {"check": "gc-fasta", "content": ci, "width": w}
